@@ -1,0 +1,56 @@
+//go:build verif
+
+package ethereum
+
+import (
+	"crypto/ecdsa"
+	"math/big"
+
+	"github.com/ethereum/go-ethereum/accounts/keystore"
+	"github.com/ethereum/go-ethereum/crypto"
+
+	"github.com/keep-network/keep-core/pkg/chain"
+	ecdsaabi "github.com/keep-network/keep-core/pkg/chain/ethereum/ecdsa/gen/abi"
+	"github.com/keep-network/keep-core/pkg/tbtc"
+)
+
+// Thin exported wrappers used by the /verif harness (property C40). No
+// behaviour of their own.
+
+// VerifC40Chain builds a TbtcChain that holds only the chain ID and the
+// operator key. The pure methods (AssembleDKGResult,
+// CalculateDKGResultSignatureHash, CalculateInactivityClaimHash,
+// AssembleInactivityClaim, CalculateWalletID, Signing) can be called on it;
+// methods that talk to the contracts can not.
+func VerifC40Chain(chainID *big.Int, key *ecdsa.PrivateKey) *TbtcChain {
+	return &TbtcChain{
+		baseChain: &baseChain{
+			chainID: chainID,
+			key: &keystore.Key{
+				Address:    crypto.PubkeyToAddress(key.PublicKey),
+				PrivateKey: key,
+			},
+		},
+	}
+}
+
+// VerifC40ConvertDkgResultToAbiType runs convertDkgResultToAbiType.
+func VerifC40ConvertDkgResultToAbiType(
+	result *tbtc.DKGChainResult,
+) ecdsaabi.EcdsaDkgResult {
+	return convertDkgResultToAbiType(result)
+}
+
+// VerifC40ConvertInactivityClaimToAbiType runs convertInactivityClaimToAbiType.
+func VerifC40ConvertInactivityClaimToAbiType(
+	claim *tbtc.InactivityClaim,
+) ecdsaabi.EcdsaInactivityClaim {
+	return convertInactivityClaimToAbiType(claim)
+}
+
+// VerifC40ComputeOperatorsIDsHash runs computeOperatorsIDsHash.
+func VerifC40ComputeOperatorsIDsHash(
+	operatorsIDs chain.OperatorIDs,
+) ([32]byte, error) {
+	return computeOperatorsIDsHash(operatorsIDs)
+}
